@@ -1099,6 +1099,9 @@ class SSHProcess(SSHStreamSession, Generic[AnyStr]):
     def feed_eof(self, datatype: DataType) -> None:
         """Feed EOF to the channel"""
 
+        if datatype not in self._readers:
+            return
+
         if self._send_eof[datatype]:
             assert self._chan is not None
             self._chan.write_eof()
